@@ -422,6 +422,13 @@ func execChain(cs *Sx) (res string) {
 		}
 	}
 	_, err = tok.AuthorizerFor(src)
+	// verification is a function of the token and the key source: asking again, on the same
+	// *Biscuit, must give the same answer
+	for k := 0; k < 2; k++ {
+		if _, err2 := tok.AuthorizerFor(src); (err == nil) != (err2 == nil) {
+			return fmt.Sprintf("inconsistent first=%s again=%s", rejectClass(err), rejectClass(err2))
+		}
+	}
 	if err != nil {
 		return rejectClass(err)
 	}
